@@ -60,7 +60,7 @@ fn analyse(t: &mut Tok, text: &str) -> Res {
 pub fn run(ctx: &Ctx, rep: &mut Report) {
     let (reps, per_thread) = match ctx.stage.as_str() {
         "miri" => (1u64, 5usize),
-        "tsan" => (ctx.n(2, 20), 120),
+        "tsan" | "asan" => (ctx.n(2, 20), 120),
         _ => (ctx.n(3, 60), 200),
     };
     let miri = ctx.stage == "miri";
@@ -114,9 +114,10 @@ pub fn run(ctx: &Ctx, rep: &mut Report) {
         // a few texts full of distinct characters with multi-character normal forms (squared katakana, enclosed
         // letters, ligatures): whatever the normaliser keeps between calls is exercised with many different keys
         if !miri {
-            for k in 1..5.min(texts.len()) {
+            let n_rich = if idx % 2 == 0 { 24 } else { 5 };
+            for k in 1..n_rich.min(texts.len()) {
                 let mut s = String::new();
-                for _ in 0..120 {
+                for _ in 0..150 {
                     let cp = *rng.pick(&[0x3300u32, 0x3200, 0x3280, 0xfb00, 0x2460, 0x24b6, 0x3250, 0x32c0]) + rng.below(0x50) as u32;
                     if let Some(c) = char::from_u32(cp) {
                         s.push(c);
